@@ -42,6 +42,10 @@ class FakeDatetime(_REAL_DATETIME, metaclass=_FakeDatetimeMeta):
 def _fake_uuid4():
     _STATE["uuid"] += 1
     n = _STATE["uuid_base"] + _STATE["uuid"]
+    if _STATE.get("uuid_mode") == "mix":
+        # pseudo-random but reproducible: the ORDER of the ids (sorted(), dict keyed by uuid) no longer follows the order
+        # of creation, as with real uuid4 values
+        n = ((_mix64(n) << 16) ^ _mix64(n ^ 0x5555)) & ((1 << 80) - 1)
     return _uuid.UUID("%08x-0000-4000-8000-%012x" % ((n >> 48) & 0xFFFFFFFF, n & 0xFFFFFFFFFFFF))
 
 
@@ -134,10 +138,11 @@ def install():
 
 
 def reset(uuid_base: int = 0, bits_mode: str = "counter", clock_origin: int = 1_700_000_000, clock_step_us: int = 1000,
-          clock_offset_us: int = 1):
+          clock_offset_us: int = 1, uuid_mode: str = "counter"):
     """Start a fresh, reproducible entropy stream (call at the start of every case)."""
     _STATE.update(uuid=0, bits=0, tok=0, clock=0, uuid_base=uuid_base, bits_mode=bits_mode,
-                  clock_origin=clock_origin, clock_step_us=clock_step_us, clock_offset_us=clock_offset_us)
+                  clock_origin=clock_origin, clock_step_us=clock_step_us, clock_offset_us=clock_offset_us,
+                  uuid_mode=uuid_mode)
 
 
 def snapshot():
